@@ -189,6 +189,7 @@ class Exec:
         s.obls = []; s.axioms = []; s.guard = []
         s.consts = {}
         s.str_len = Function('str_len', I, I); s.str_cnt = Function('str_count_nl', I, I); s.str_rf = Function('str_rfind_nl', I, I)
+        s._str_cat = Function('str_cat', I, I, I); s._str_cat_axiom = False
         s.axioms += [ForAll([x], And(s.str_len(x) >= 0, s.str_cnt(x) >= 0, s.str_rf(x) >= -1, s.str_rf(x) < s.str_len(x),
                                      (s.str_cnt(x) == 0) == (s.str_rf(x) == -1))) for x in [Int('sx')]]
         s.typ = Function('typ', I, I)   # class id of a reference
@@ -202,6 +203,12 @@ class Exec:
         for c in s.p.mro(cls):
             if f in s.p.classes[c].fields: return (c, f)
         raise Unsupported(f'no field {cls}.{f}')
+    def str_cat(s, a, b):
+        """string concatenation: uninterpreted, length and newline count additive (A-str); the axiom is only added to units that concatenate strings"""
+        if not s._str_cat_axiom:
+            s._str_cat_axiom = True; x, y_ = Int('x!s'), Int('y!s')
+            s.axioms.append(ForAll([x, y_], And(s.str_len(s._str_cat(x, y_)) == s.str_len(x) + s.str_len(y_), s.str_cnt(s._str_cat(x, y_)) == s.str_cnt(x) + s.str_cnt(y_)), patterns=[s._str_cat(x, y_)]))
+        return s._str_cat(a, b)
     def hget(s, heap, key, ty):
         if key not in heap.m: heap.m[key] = Const(f'H_{key[0]}_{key[1]}', field_sort(ty))
         return heap.m[key]
@@ -335,6 +342,9 @@ class Exec:
             f = {ast.Add: 'add', ast.Sub: 'sub', ast.Mult: 'mul', ast.Div: 'div'}.get(op)
             if f is None: raise Unsupported('decimal operator')
             return SV(s.dec[f](a.t, b.t), DEC)
+        if a.ty == STR or b.ty == STR:
+            if op is ast.Add and a.ty == STR and b.ty == STR: return SV(s.str_cat(a.t, b.t), STR)      # concatenation: uninterpreted, length additive (A-str)
+            raise Unsupported('string operator')
         if op is ast.Add: return SV(a.t + b.t, INT)
         if op is ast.Sub: return SV(a.t - b.t, INT)
         if op is ast.Mult: return SV(a.t * b.t, INT)
@@ -808,6 +818,7 @@ class Exec:
         if n == 'count_nl': return SV(s.str_cnt(s.ev(st, e.args[0]).t), INT)
         if n == 'rfind_nl': return SV(s.str_rf(s.ev(st, e.args[0]).t), INT)
         if n == 'strlen': return SV(s.str_len(s.ev(st, e.args[0]).t), INT)
+        if n == 'cat': return SV(s.str_cat(s.ev(st, e.args[0]).t, s.ev(st, e.args[1]).t), STR)
         if n == 'fresh':
             v = s.ev(st, e.args[0]); return SV(v.t >= st.old.alloc, BOOL)
         if n in s.spec.macros:
